@@ -10,6 +10,10 @@ CT = TypeVar("CT", int, str)
 class GenC(Generic[CT], DataClassDictMixin):
     c: CT
 
+NTI = NewType("NTI", int)
+NTS = NewType("NTS", str)
+type TAI = int
+
 @dataclass
 class P1:
     a: int
@@ -37,6 +41,10 @@ UNIONS = [
     ("path_i", "Union[PurePosixPath, int]"), ("tvar_s", "Union[Tuple[str, ...], str]"), ("ip_f", "Union[IPv4Address, float]"),
     ("tfix_opt", "Tuple[int, Optional[int]]"), ("tvar_opt", "Tuple[Optional[int], ...]"), ("lit_01", "Literal[0, 1]"),
     ("u_lit_s", "Union[Literal[1, 2], str]"),
+    # scalar members behind NewType / Annotated / a PEP 695 alias: the type test in the generated union decoder must name the
+    # underlying class
+    ("newtype_s", "Union[NTI, str]"), ("s_newtype", "Union[str, NTI]"), ("newtype_n_date", "Union[NTI, None, datetime.date]"),
+    ("ann_s", "Union[Annotated[int, 'm'], str]"), ("alias_s", "Union[TAI, str]"), ("nts_i", "Union[NTS, int, None]"),
 ]
 LITERALS = [
     ("lit_mixed", "Literal['a', 2, None]"), ("lit_bool", "Literal[True, 'x']"), ("lit_bytes", "Literal[b'x', 'y']"),
